@@ -186,7 +186,7 @@ def handleWf (args : List String) : String :=
       match (decCmd (depth + 3)).run rest with
       | some (cmd, _) =>
         let b := Build.buildAll (depth + 2) cmd
-        s!"WF tree={if b.wfTreeB (depth + 3) then 1 else 0} height={if b.height ≤ depth + 3 then 1 else 0}"
+        s!"WF tree={if b.wfTreeB (depth + 3) then 1 else 0} height={if b.height ≤ depth + 3 then 1 else 0} user={if cmd.userTreeB (depth + 3) && decide (cmd.height ≤ depth + 3) then 1 else 0}"
       | none => "bad-cmd"
   | _ => "bad-op"
 
